@@ -153,6 +153,8 @@ def run_config(res, h, drv, emu, d, cfg, scripts, specs=None):
             res.dist("fault-not-fired")
         res.dist("outcome:%s:%s" % (name, run.cls))
         moc, kv = fs_lib.parse_model(mout[j] if j < len(mout) else "<missing>")
+        if kv.get("fired") == "1":
+            res.dist("fault-effective(model):%s" % what)
         what_diff = None
         if run.cls not in ("returned", "die"):
             what_diff = "impl outcome %s" % run.outcome
